@@ -43,9 +43,10 @@ ALPHABETS = [
     ["ch", "firenet", "svc"],
     ["x", "a-b", "9lives"],  # one letter, hyphen, leading digit
     ["\U0001F34A", "ws", "a_b"],  # non-BMP label, underscore
+    ["de", "stra\u00dfe", "strasse"],  # a letter whose case mapping does not round-trip (sharp s) next to its folded twin
 ]
 FOREIGN = "zz"
-FORMS = ["bare", "http", "schemeless", "upper", "dot", "split", "auth", "httpdot", "auth2", "dotport", "hostq", "hostfrag", "bareport", "wss", "baredslash"]
+FORMS = ["bare", "http", "schemeless", "upper", "dot", "split", "auth", "httpdot", "auth2", "dotport", "hostq", "hostfrag", "bareport", "wss", "baredslash", "bareq", "barefrag", "bareqdots", "auth3"]
 NET_FAULTS = ["net_refused", "net_reset_on_read", "net_truncated", "net_garbage", "net_stale"]
 DISK_FAULTS = ["disk_open_error", "disk_write_error", "disk_close_error", "crash_during_write", "crash_between"]
 FAULT_KINDS = NET_FAULTS + DISK_FAULTS
@@ -128,6 +129,10 @@ def render(labels, form):
     if u is not None:
         return u
     host = ".".join(labels)
+    if form in ("upper", "httpdot", "dotport") and host.upper().lower() != host:
+        # upper-casing is not reversible for every letter (sharp s, final sigma):
+        # such hosts are only spelled as they are
+        form = {"upper": "bare", "httpdot": "dot", "dotport": "dot"}[form]
     if form == "bare":
         u = host
     elif form == "http":
@@ -144,6 +149,14 @@ def render(labels, form):
         u = "ftp://user:pw@%s/" % host
     elif form == "auth2":
         u = "http://first.last:p-w%%40d~@%s:8080/x?y#z" % host
+    elif form == "bareq":
+        u = "%s?x=1" % host
+    elif form == "barefrag":
+        u = "%s#section" % host
+    elif form == "bareqdots":
+        u = "%s?ref=a.b.com" % host
+    elif form == "auth3":
+        u = "http://us%%2Feast:p%%3Fw%%23@%s/x" % host
     elif form == "baredslash":
         # (a single all-letter label followed by '//' reads as a protocol to the
         # library's own PROTOCOL_RE: not a host spelling)
@@ -225,7 +238,7 @@ def discrepancy(api, rules, labels, form):
         b = tld.is_valid_tld(last)
         if a is not b:
             return {"invariant": "has_valid_tld_last_label", "got": a, "expected": b, "host": ".".join(labels), "form": form}
-        for variant in (last.upper(), "." + last, puny_twin(last)):
+        for variant in (last.upper() if last.upper().lower() == last else last, "." + last, puny_twin(last)):
             c = tld.is_valid_tld(variant)
             if c is not b:
                 return {"invariant": "is_valid_tld_spelling", "got": c, "expected": b, "host": variant, "form": "tld"}
@@ -233,16 +246,17 @@ def discrepancy(api, rules, labels, form):
 
 
 def puny_twin(label):
-    if label.startswith("xn--"):
-        try:
-            return label.encode("ascii").decode("idna")
-        except UnicodeError:
-            return label
-    if any(ord(ch) > 127 for ch in label):
-        try:
-            return label.encode("idna").decode("ascii")
-        except UnicodeError:
-            return label
+    """The other spelling (punycode <-> Unicode) of a label, when Python's idna
+    codec maps the two onto each other exactly; else the label itself."""
+    try:
+        if label.startswith("xn--"):
+            twin = label.encode("ascii").decode("idna")
+            return twin if twin.encode("idna").decode("ascii") == label else label
+        if any(ord(ch) > 127 for ch in label):
+            twin = label.encode("idna").decode("ascii")
+            return twin if twin.encode("ascii").decode("idna") == label else label
+    except UnicodeError:
+        return label
     return label
 
 
